@@ -5,10 +5,11 @@ CONSTANT Deep
 VARIABLES d, done
 vars == <<d, done>>
 AllGroups == Groups1(ConvMarkers \cup VarMarkers \cup NonMarkers) \cup (IF Deep THEN Groups2(ConvMarkers) ELSE {})
-Init == /\ d \in [kind : Kinds, attach : Attachments, group : AllGroups, mgroup : {<<>>, <<"// goverter:map A B">>}]
+Init == /\ d \in [kind : Kinds, attach : Attachments, group : AllGroups, mgroup : {<<>>, <<"// goverter:map A B">>}, mattach : {"doc", "trailing", "detached"}]
         /\ done = FALSE
 Next == ~done /\ done' = TRUE /\ UNCHANGED d
 Spec == Init /\ [][Next]_vars
+A_MethodTrailingIgnored == d.mattach # "doc" => ExpectMethodLines(d) = <<>>
 \* only attached doc comments can mark a declaration
 A_DetachedIgnored == d.attach # "doc" => Expect(d) = "none"
 \* every setting line is the remainder of a trimmed line that starts with goverter:, in source order
